@@ -316,7 +316,134 @@ def run(ctx: Ctx) -> None:
              "rules on every outcome of their comparisons")
     ctx.rule("D7.5", "the end of the season ends the running streak")
     _step_agreement(ctx, fi)
+    ctx.rule("D7.6", "the scratch tables can hold every day number")
+    _scratch_type(ctx)
     _final_agreement(ctx, fi)
+
+
+# ------------------------------------------------------------------ D7.6
+def _scratch_type(ctx: Ctx) -> None:
+    """The scratch tables handed to count_errors store day numbers (0 ..
+    days-1, with -1 for "never met") and meeting counts; their integer type
+    must cover [-1, days - 1], days = (n - 1) * rounds.  The ranges are
+    compared as values; a type taken from an attribute is looked up where
+    that attribute is assigned."""
+    from sa.kern import make_evaluator, py_calls
+    from sa.srcmodel import inline_locals
+    from sa.symterm import Env, Poly, Unsupported, show
+    repo = ctx.repo
+    cls = repo.cls(MOD, "Errors")
+    init = cls.methods["__init__"]
+    N, RD = Poly.var("N"), Poly.var("ROUNDS")
+    need_hi = (N - Poly.const(1)) * RD - Poly.const(1)
+
+    def range_of(call: ast.Call, fi: Any, subst: dict) -> Any:
+        kw = {k.arg: k.value for k in call.keywords}
+        a = kw.get("min_value", call.args[0] if call.args else None)
+        b = kw.get("max_value", call.args[1] if len(call.args) > 1
+                   else None)
+        if a is None or b is None:
+            return None
+        ev = make_evaluator(repo, fi, extra_call=py_calls)
+        ev.int_transparent = True
+        env = Env()
+        try:
+            lo = ev.num(env, inline_locals(fi.node, a))
+            hi = ev.num(env, inline_locals(fi.node, b))
+        except Unsupported:
+            try:            # the locals as opaque symbols
+                lo, hi = ev.num(env, a), ev.num(env, b)
+            except Unsupported:
+                return None
+        # the number of teams / rounds under any of their names
+        m = {}
+        for at in set(lo.atoms()) | set(hi.atoms()):
+            txt = show(Poly.atom(at))
+            if txt.endswith("n_cities") or txt in subst.get("n", ()) or \
+                    (at[0] == "app" and at[1] == "len"):
+                m[at] = N
+            elif txt.endswith("rounds"):
+                m[at] = RD
+        return lo.subst(m), hi.subst(m)
+
+    def is_rng(e: Any) -> bool:
+        return isinstance(e, ast.Call) and ast.unparse(e.func).split(
+            ".")[-1] == "int_range_to_dtype"
+    problems: list[str] = []
+    node: ast.AST = init.node
+    n_alloc = 0
+    for st in ast.walk(init.node):
+        if not (isinstance(st, (ast.Assign, ast.AnnAssign)) and isinstance(
+                getattr(st, "value", None), ast.Call) and ast.unparse(
+                st.value.func) in ("np.empty", "np.zeros")):
+            continue
+        tg = st.targets[0] if isinstance(st, ast.Assign) else st.target
+        if not (isinstance(tg, ast.Attribute) and "temp" in tg.attr):
+            continue
+        n_alloc += 1
+        kw = {k.arg: k.value for k in st.value.keywords}
+        d = kw.get("dtype", st.value.args[1] if len(st.value.args) > 1
+                   else None)
+        if d is None:
+            problems.append(f"`{ast.unparse(tg)}` is allocated without an "
+                            "integer type")
+            node = st
+            continue
+        d = inline_locals(init.node, d)
+        rng = None
+        where = ""
+        if is_rng(d):
+            rng = range_of(d, init, {})
+        elif ast.unparse(d) in ("int", "np.int64", "DEFAULT_INT"):
+            continue
+        elif isinstance(d, ast.Attribute):
+            # the type stored in an attribute: where is it assigned?
+            for fn in repo.all_funcs():
+                for a_ in ast.walk(fn.node):
+                    if isinstance(a_, ast.Assign) and isinstance(
+                            a_.targets[0], ast.Attribute) and \
+                            a_.targets[0].attr == d.attr and is_rng(
+                            a_.value):
+                        rng = range_of(a_.value, fn, {"n": ("n",)})
+                        where = (f" (`{ast.unparse(d)}` = "
+                                 f"{ast.unparse(a_.value)})")
+        if rng is None:
+            problems.append(f"the integer type `{ast.unparse(d)[:50]}` of "
+                            f"`{ast.unparse(tg)}` is not recognised")
+            node = st
+            continue
+        lo, hi = rng
+        # symbols that are neither N nor ROUNDS: the team count of the
+        # defining class (`n`)
+        other = [a_ for a_ in set(lo.atoms()) | set(hi.atoms())
+                 if Poly.atom(a_) not in (N, RD)]
+        if other:
+            m = {a_: N for a_ in other}
+            lo, hi = lo.subst(m), hi.subst(m)
+        from sa.casesplit import Splitter
+        sp = Splitter(integer=True)
+        facts = sp.facts_of(("le", Poly.const(2), N), True)[0] + \
+            sp.facts_of(("le", Poly.const(1), RD), True)[0]
+        from sa.lin import entails
+        try:
+            ok_lo = entails(facts, sp.lin(Poly.const(-1) - lo))
+            ok_hi = entails(facts, sp.lin(hi - need_hi))
+        except Unsupported:
+            ok_lo = ok_hi = False
+        if not (ok_lo and ok_hi):
+            problems.append(
+                f"`{ast.unparse(tg)}` has the integer type of [{show(lo)}, "
+                f"{show(hi)}]{where}, which does not cover the day numbers "
+                "-1 .. (n - 1) * rounds - 1 the kernel stores there: later "
+                "days wrap around and meetings are mistaken for `never met`")
+            node = st
+    if n_alloc < 2:
+        problems.append("the scratch tables of Errors are not allocated in "
+                        "__init__ (not recognised)")
+    ctx.ob("D7.6", init, node, not problems,
+           "both scratch tables have an integer type covering -1 .. days-1"
+           if not problems else "; ".join(dict.fromkeys(problems)),
+           construct="scratch table type")
 
 
 # ------------------------------------------------------------------ D7.4
